@@ -34,22 +34,22 @@ CHECKS = {
             "6/C03"),
     "C04": ("world", "exploration",
             "as C03 plus an adversary registering outdated signed states at seeded instants (between/during updates, during sub-channel funding); outcome vs. honest client's Enabled stream",
-            "The peer's real client runs the off-chain protocol while an adversary goroutine registers earlier fully signed states from that client's own history at drawn instants; the honest side watches and settles when notified. Oracle: the concluded tree consists of states the honest client enabled, each at least as new as what it had enabled when its machine entered Registered, and its payout is at least its balances there. Two genuine defects are recorded as known findings, identified by history shape; every other violation is reported. Later additions: the instant a state is handed to the watcher is recorded by a pass-through wrapper (known-finding shape); a slow user decision on a sub-channel update while the dispute starts, impatient Settle contexts, cancel-on-enable; a driver call that never returns is a violation.",
+            "The peer's real client runs the off-chain protocol while an adversary goroutine registers earlier fully signed states from that client's own history at drawn instants; the honest side watches and settles when notified. Oracle: the concluded tree consists of states the honest client enabled, each at least as new as what it had enabled when its machine entered Registered, and its payout is at least its balances there. Two genuine defects are recorded as known findings, identified by history shape; every other violation is reported. Later additions: the instant a state is handed to the watcher is recorded by a pass-through wrapper (known-finding shape); a slow user decision on a sub-channel update while the dispute starts, impatient Settle contexts, cancel-on-enable; a driver call that never returns is a violation. Wave 7: a slow user decision on a ledger-channel update while the dispute starts, a user who settles only after the challenge period; a forwarding AdjudicatorSub records when the client's event loop took each event, and the known shape ends 100 ms after the first registered event was taken (an update put on the wire later is not the known defect).",
             "Ledger latencies are bounded so that five refutation rounds fit into the challenge period (the protocol's own assumption). Refutations do not extend the challenge period in the reference ledger.",
             "6/C04"),
     "C06": ("world", "exploration",
             "two real clients in a synctest bubble; seeded update programs (sequential, concurrent, several channels) x keyed schedules and yield points (hand-placed hooks plus automatically injected ones at the lock boundaries of a scratch copy); agreement oracle over Enabled/SigAdded streams; token-configuration liveness",
-            "Programs of up to 15 Channel.Update calls from either side on 1-3 channels with keyed accept/reject decisions; strict runs check success => both enabled the proposed state fully signed, rejection => never enabled, no fork, version gap <= 1, accept => enabled, both Acting + probe update; the token configuration additionally forbids any timeout (a lost reply inside the client). Loss, duplication and short contexts run in a separate relaxed configuration that only checks the fully-signed invariant, as the property says. Later additions: eager concurrent openings with an immediate first payment, late return of Publish, the invariant that a controller's in-memory state is the last state it enabled; a driver call that never returns is a violation.",
+            "Programs of up to 15 Channel.Update calls from either side on 1-3 channels with keyed accept/reject decisions; strict runs check success => both enabled the proposed state fully signed, rejection => never enabled, no fork, version gap <= 1, accept => enabled, both Acting + probe update; the token configuration additionally forbids any timeout (a lost reply inside the client). Loss, duplication and short contexts run in a separate relaxed configuration that only checks the fully-signed invariant, as the property says. Later additions: eager concurrent openings with an immediate first payment, late return of Publish, the invariant that a controller's in-memory state is the last state it enabled; a driver call that never returns is a violation. Wave 7: channel synchronisation messages injected during the update program (replies taken by the driver); restart runs without a timeout judge the success clause for updates that started on current instances; the survivor may update while its peer is being restored.",
             "Exactly-once delivery in strict configurations is go-perun's stated assumption about the bus. Same-instant wake-ups are ordered by the Go runtime, not by the seed (measured by the determinism self-test: 0 diverging of 480 runs x 3 executions).",
             "6/C06"),
     "C10": ("persist", "fault_enumeration",
             "crash at every store-write boundary (enumerated) of seeded persisted-machine programs on memorydb and LevelDB; restore vs. before/after snapshots; failing writes in a relaxed configuration",
-            "For every operation of every generated program and every write/batch boundary inside it, the durable image at that boundary is restored with a fresh restorer (LevelDB: written to a new directory and reopened) and RestoreChannel/RestorePeer must equal the harness's own before- or after-snapshot of the interrupted operation, exactly the after-snapshot once the operation completed; every restored staging signature must verify for the restored staged state; other channels restore unchanged. Crash points are enumerated per program, programs are sampled. Later addition: in the write-error configuration a failed Sig is retried; once it returns nil the store must hold the own signature.",
+            "For every operation of every generated program and every write/batch boundary inside it, the durable image at that boundary is restored with a fresh restorer (LevelDB: written to a new directory and reopened) and RestoreChannel/RestorePeer must equal the harness's own before- or after-snapshot of the interrupted operation, exactly the after-snapshot once the operation completed; every restored staging signature must verify for the restored staged state; other channels restore unchanged. Crash points are enumerated per program, programs are sampled. Later addition: in the write-error configuration a failed Sig is retried; once it returns nil the store must hold the own signature. Wave 7: the three operations that take a state without validation (forced update, SetProgressing, SetProgressed) also get the current, a lower or a much higher version (the client itself forces the final form of the current version).",
             "Boundaries are individual Put/Delete calls and Batch.Apply (atomic), as the property states; torn batches and file-level LevelDB corruption are out of scope. Create/remove use two batches, so RestoreChannel and RestorePeer are judged independently between them.",
             "6/C10"),
     "C11": ("persist", "exploration",
             "seeded create/update/remove histories over up to 6 channels and a shared peer pool on both stores vs. a reference set of live channels, after every step",
-            "After every step of a history the restorer's four views (RestoreChannel, RestorePeer, ActivePeers, RestoreAll) and the raw key set are compared with a reference set of live channels with snapshots; operations on one channel must leave every other channel's restored value byte-identical. Later additions: peers reachable under several backend ids; removals and creations whose first or second write fails (the half-removed/half-created channel is tolerated, every other channel must be unaffected).",
+            "After every step of a history the restorer's four views (RestoreChannel, RestorePeer, ActivePeers, RestoreAll) and the raw key set are compared with a reference set of live channels with snapshots; operations on one channel must leave every other channel's restored value byte-identical. Later additions: peers reachable under several backend ids; removals and creations whose first or second write fails (the half-removed/half-created channel is tolerated, every other channel must be unaffected). Wave 7: a second pool of wire identities whose bytes spell fragments of the store's key syntax (":channel:", "Chan:", ...), two of them sharing the prefix up to the separator; forced/progressed states with the current, a lower or a much higher version.",
             "No crashes here (C10 covers them). LevelDB in 5% of runs.",
             "6/C11"),
     "C08": ("world", "exploration",
@@ -64,22 +64,22 @@ CHECKS = {
             "6/C07"),
     "C12": ("world", "exploration",
             "three-party world; seeded sequences of 1-6 decodable hostile envelopes (70 kinds over all request and response types, from the channel counterparty or a stranger) while the victim optionally holds its machine lock; process survival + bounded liveness probes on the fake clock",
-            "Hostile envelopes are built at struct level (dimension mismatches, nil/empty transactions, short/long parent lists and index maps, answers to requests never made or pending, correct signatures over inconsistent content), passed through the run's serializer (native or protobuf; an envelope that cannot be encoded or decoded is outside the quantifier) and delivered at drawn instants, also while the victim's machine lock is held for 3 s or 12 s by a pending own request. Oracle: the worker process survives (a dead worker is replayed in a fresh process and reported with the panic site), and after the last message and 30 simulated seconds every honest probe (Phase, Update with a 60 s context on the channel with an honest third client and on the channel with the adversary's address) returns within 120 simulated seconds with anything but 'could not lock the machine mutex'. A simulation stalled on a mutex inside go-perun is reported as lock-up as well. Later additions: up to three honest virtual channels, locked-list mutations, embedded states with fewer balance columns, empty participant maps, two stateful adversaries around an abandoned or late-funded sub-channel opening, settlement proposals of the two parties 9.99-12 s apart, synchronous bus also in three-party runs.",
+            "Hostile envelopes are built at struct level (dimension mismatches, nil/empty transactions, short/long parent lists and index maps, answers to requests never made or pending, correct signatures over inconsistent content), passed through the run's serializer (native or protobuf; an envelope that cannot be encoded or decoded is outside the quantifier) and delivered at drawn instants, also while the victim's machine lock is held for 3 s or 12 s by a pending own request. Oracle: the worker process survives (a dead worker is replayed in a fresh process and reported with the panic site), and after the last message and 30 simulated seconds every honest probe (Phase, Update with a 60 s context on the channel with an honest third client and on the channel with the adversary's address) returns within 120 simulated seconds with anything but 'could not lock the machine mutex'. A simulation stalled on a mutex inside go-perun is reported as lock-up as well. Later additions: up to three honest virtual channels, locked-list mutations, embedded states with fewer balance columns, empty participant maps, two stateful adversaries around an abandoned or late-funded sub-channel opening, settlement proposals of the two parties 9.99-12 s apart, synchronous bus also in three-party runs. Wave 7: 17-40 late answers to a proposal of the victim that has timed out; the probes may begin with a new channel opening between two honest clients.",
             "The adversary's address is served by a real client that answers probes honestly but never sync messages (two clients running the library's sync handler bounce replies forever; noted in DESIGN). Runs are capped at 20000 seam events.",
             "6/C12"),
     "C13": ("link", "fault_enumeration",
             "truncation at every offset, bit flips, length/count/backend-id/type field overwrites, splices and random bytes on the decoders' input stream; protobuf-level structural mutations; child processes under an address-space limit; race-detector pass with 4-8 concurrent decoders",
-            "Well-formed encodings of every wire type are corrupted by link/disk style faults (all truncation offsets enumerated for messages up to 2 KiB, others sampled) and fed to the native and protobuf envelope decoders and each value decoder. Oracle: a value or an error, never a panic, never a dead decoder process (out-of-memory under a 32 GiB address space limit counts); successful decodes respect the documented limits; dimension fields above the limit are rejected. Second pass: the engine is rebuilt with -race and valid states whose app is found by a predicate resolver are decoded on 4-8 goroutines at once (one decoder per connection is how the client runs); every decode must succeed and any data race in the decoders' shared tables is a violation.",
+            "Well-formed encodings of every wire type are corrupted by link/disk style faults (all truncation offsets enumerated for messages up to 2 KiB, others sampled) and fed to the native and protobuf envelope decoders and each value decoder. Oracle: a value or an error, never a panic, never a dead decoder process (out-of-memory under a 32 GiB address space limit counts); successful decodes respect the documented limits; dimension fields above the limit are rejected. Second pass: the engine is rebuilt with -race and valid states whose app is found by a predicate resolver are decoded on 4-8 goroutines at once (one decoder per connection is how the client runs); every decode must succeed and any data race in the decoders' shared tables is a violation. Wave 7: a second channel backend (id 1, 20-byte assets) is registered, so backend-id fields have two valid values and cross-ledger allocations decode.",
             "Value shapes are seeded input generation (stated in the evidence rule). The 32 GiB threshold is an assumption: no deployment hands that much memory to decoding a message of a few hundred bytes.",
             "6/C13"),
     "C14": ("link", "exploration",
             "streams of 1-20 concatenated seeded values of every wire type through both serializers; exact consumption, structural equality, byte-stable native re-encoding, signature and ID survival, serializer agreement; 2-3 concurrent senders on slow simulated connections in a synctest bubble",
-            "Seeded values of all 17 message types and all serialisable channel values (full shape space of the property) are written back to back on one simulated link and decoded in order; each decode must yield an equal value (harness's own field-by-field comparison), stop exactly at the end of its bytes, re-encode natively to the same bytes, keep signatures verifying and IDs equal; envelopes through protobuf must agree with the native result. The world engines additionally re-serialise every envelope of every run with the run's serializer.",
+            "Seeded values of all 17 message types and all serialisable channel values (full shape space of the property) are written back to back on one simulated link and decoded in order; each decode must yield an equal value (harness's own field-by-field comparison), stop exactly at the end of its bytes, re-encode natively to the same bytes, keep signatures verifying and IDs equal; envelopes through protobuf must agree with the native result. The world engines additionally re-serialise every envelope of every run with the run's serializer. Wave 7: a second channel backend (id 1, 20-byte assets): in a quarter of the shapes every second asset lives on the second ledger.",
             "Input generation, not enumeration. Wire address maps carry up to three backend ids; wallet address maps only backend id 0 (the only wallet backend of the repository). In a fifth of the runs the envelopes are also encoded by 2-3 goroutines at once, each to its own connection whose writes take keyed simulated time; every connection must carry exactly what its sender sent.",
             "6/C14"),
     "C16": ("link", "fault_enumeration",
             "read/write chunk schedules (single bytes, segments, field boundaries +-1, random partitions, all single splits of short streams) on an open simulated link under wire/net ioConn with both serializers",
-            "1-10 consecutive envelopes (byte fields up to 64 KiB through a blob-data app) are sent with the real ioConn.Send and read with ioConn.Recv under chunking schedules; every envelope must decode, in order, to what was sent, and identically under any two schedules. All single-split positions are enumerated for streams up to 1 KiB, other partitions are sampled. Sender-side fault: a Send of an envelope that cannot be encoded between well-formed ones; exactly the envelopes reported as sent must arrive.",
+            "1-10 consecutive envelopes (byte fields up to 64 KiB through a blob-data app) are sent with the real ioConn.Send and read with ioConn.Recv under chunking schedules; every envelope must decode, in order, to what was sent, and identically under any two schedules. All single-split positions are enumerated for streams up to 1 KiB, other partitions are sampled. Sender-side fault: a Send of an envelope that cannot be encoded between well-formed ones; exactly the envelopes reported as sent must arrive. Wave 7: an envelope whose protobuf frame is 65535 +- 150 bytes is sent in between: its Send fails cleanly or it arrives, the stream stays framed either way; cross-ledger allocations.",
             "The stream stays open (a reader reporting EOF together with the last bytes is a closed connection, which the native codec treats as an error by design).",
             "6/C16"),
     "C05": ("watcher", "exploration",
@@ -89,7 +89,7 @@ CHECKS = {
             "6/C05"),
     "C18": ("relay", "exploration",
             "2-4 simulated threads on one real wire.Relay in a bubble, schedules through the relay/receiver yield points (hand-placed hooks plus automatically injected ones at the lock boundaries of a scratch copy); distribution invariants + porcupine linearizability against a sequential relay model; race-detector pass with real parallelism",
-            "Programs of puts, subscribes, cache enable/release and consumer closes with overlapping predicates run on 2-4 threads with keyed gaps and a buggify mask over 7 yield sites; after quiescence the final distribution must have no duplicate, no predicate violation and no unaccounted envelope, and the stamped history must be linearizable (porcupine) against a sequential reference relay. The same engine is rebuilt with -race and run with GOMAXPROCS>1, including bursts of unsynchronised concurrent puts; any data race in wire/relay.go, cache.go or receiver.go is a violation.",
+            "Programs of puts, subscribes, cache enable/release and consumer closes with overlapping predicates run on 2-4 threads with keyed gaps and a buggify mask over 7 yield sites; after quiescence the final distribution must have no duplicate, no predicate violation and no unaccounted envelope, and the stamped history must be linearizable (porcupine) against a sequential reference relay. The same engine is rebuilt with -race and run with GOMAXPROCS>1, including bursts of unsynchronised concurrent puts; any data race in wire/relay.go, cache.go or receiver.go is a violation. Wave 7: impatient consumers - Receiver.Next with a context that is already done or whose deadline passes while waiting, on a receiver that stays open; every envelope handed to the receiver must still be returned by exactly one call.",
             "A cooperative scheduler cannot split a single append; unsynchronised conflicting accesses are therefore left to the happens-before race detector. Race-mode runs do not replay instruction for instruction.",
             "6/C18"),
     "C20": ("multi", "exploration",
